@@ -258,8 +258,19 @@ func init() {
 		"log.New":        func(e *Exec, a []Value) Value { return Ptr{o: globalObj, slot: &[]Value{Native{"logger"}}[0]} },
 		"reflect.TypeOf": func(e *Exec, a []Value) Value {
 			it := a[0].(Iface)
+			if it.t == nil {
+				return Iface{} // reflect.TypeOf(nil) is a nil Type
+			}
 			rt := e.prog.ImportedPackage("reflect").Type("rtype").Type()
 			return Iface{t: types.NewPointer(rt), v: Rtype{it.t}}
+		},
+		"reflect.Zero": func(e *Exec, a []Value) Value {
+			it := a[0].(Iface)
+			if it.t == nil {
+				e.gopanic("reflect: Zero(nil)")
+			}
+			t := it.v.(Rtype).t
+			return RV{valid: true, t: t, v: zero(t)}
 		},
 	}
 	// package initialisers of the standard library are not executed
